@@ -69,6 +69,7 @@ type frame struct {
 	pure    bool // no state modification, calls only pure code
 	created bool // init or runtime code of a contract created in this transaction
 	nest    int
+	level   int // distance from the entry code in the forward call graph (sets the gas operand)
 	minT    int // lowest contract index a call statement may address (forward edges only)
 	inLoop   bool
 	recursed bool
@@ -118,11 +119,11 @@ func (g *gen) pushAddr(f *frame, _ bool) {
 }
 
 func (g *gen) smallOff(f *frame) {
-	k := g.i(0, 19, "ok")
+	k := g.i(0, 39, "ok")
 	switch {
-	case k < 17:
+	case k < 35 && k != 20:
 		f.a.pushInt(smallOffsets[g.i(0, len(smallOffsets)-1, "os")])
-	case k < 19:
+	case k != 20:
 		f.a.pushInt(growOffsets[g.i(0, len(growOffsets)-1, "og")])
 	default:
 		f.a.pushBig(hugeOffsets[g.i(0, len(hugeOffsets)-1, "oh")])
@@ -313,7 +314,7 @@ func (g *gen) stmt(f *frame, d int) {
 		}
 		// do { body } while (--counter != 0)
 		n := g.i(1, 4, "loop")
-		if g.i(0, 19, "longloop") == 19 {
+		if g.i(0, 19, "longloop") == 11 {
 			n = g.i(5, 60, "loopn")
 		}
 		f.a.pushInt(uint64(n))
@@ -395,14 +396,25 @@ func (g *gen) copyStmt(f *frame) {
 	}
 }
 
-func (g *gen) pushMaxGas(f *frame) {
-	switch g.i(0, 3, "gas") {
-	case 0, 1:
+// pushGas pushes the gas operand of a CALL-family instruction. In-tree it is ignored (execution
+// is metered against the per-transaction budget: the documented deviation); in the reference a
+// failing callee burns what it was given, so a caller must keep enough for the rest of its own
+// work: every level of the (forward-only) call graph hands down 1/32 of what it got itself.
+// Back edges (recursionStmt) pass everything (63/64 rule) to be able to reach the depth limit.
+// The tracer verifies on every case that the reference supply did not bind.
+func (g *gen) pushGas(f *frame, all bool) {
+	if all {
 		f.a.pushBig(sub1(pow2(256)))
-	case 2:
-		f.a.pushBig(sub1(pow2(64)))
-	default:
-		f.a.pushBig(pow2(63))
+		return
+	}
+	e := 57 - 5*f.level
+	if e < 29 {
+		e = 29
+	}
+	if g.i(0, 3, "gasm1") == 0 {
+		f.a.pushBig(sub1(pow2(uint(e))))
+	} else {
+		f.a.pushBig(pow2(uint(e)))
 	}
 }
 
@@ -477,7 +489,7 @@ func (g *gen) callTarget(f *frame) (contract int, other []byte, selfRef bool) {
 	}
 }
 
-func (g *gen) emitCall(f *frame, op byte, contract int, other []byte) {
+func (g *gen) emitCall(f *frame, op byte, contract int, other []byte, allGas bool) {
 	if contract >= 0 && op == 0xfa && g.avoidStatic && !g.pure[contract] {
 		// S16 open: a STATICCALL only reaches code that does not write
 		g.excl[sigS16Static] = true
@@ -495,7 +507,7 @@ func (g *gen) emitCall(f *frame, op byte, contract int, other []byte) {
 	} else {
 		f.a.pushBytes(other)
 	}
-	g.pushMaxGas(f)
+	g.pushGas(f, allGas)
 	if op == 0xf1 || op == 0xf2 {
 		g.o(f, op, 7, 1)
 	} else {
@@ -511,7 +523,7 @@ func (g *gen) callStmt(f *frame) {
 		return
 	}
 	contract, other, _ := g.callTarget(f)
-	g.emitCall(f, op, contract, other)
+	g.emitCall(f, op, contract, other, false)
 }
 
 // recursionStmt: a back edge of the call graph (self or an earlier contract), taken at most K
@@ -524,15 +536,15 @@ func (g *gen) recursionStmt(f *frame, op byte) {
 		if f.self == 0 {
 			g.excl[sigS15] = true
 			contract, other, _ := g.callTarget(f)
-			g.emitCall(f, op, contract, other)
+			g.emitCall(f, op, contract, other, false)
 			return
 		}
 	}
 	f.recursed = true
 	target := g.i(lo, f.self, "back")
-	k := []uint64{2, 1, 3, 5, 1100}[g.i(0, 19, "reck")/4%5]
-	if g.i(0, 49, "deep") == 0 {
-		k = 1100
+	k := []uint64{2, 1, 3, 5, 40}[g.i(0, 19, "reck")/4%5]
+	if g.i(0, 149, "deep") == 77 {
+		k = 1100 // reaches the call depth limit (1024); ~50-100 ms per case, kept rare
 	}
 	skip := f.a.newLabel()
 	f.a.pushInt(k)
@@ -548,7 +560,7 @@ func (g *gen) recursionStmt(f *frame, op byte) {
 	g.o(f, 0x01, 2, 1)
 	f.a.pushInt(0x77)
 	g.o(f, 0x55, 2, 0)
-	g.emitCall(f, op, target, nil)
+	g.emitCall(f, op, target, nil, true)
 	f.a.place(skip)
 }
 
@@ -687,11 +699,11 @@ func (g *gen) precompileStmt(f *frame) {
 		f.a.pushInt(0)
 	}
 	addr := uint64(p)
-	if g.i(0, 99, "gov") == 0 {
+	if g.i(0, 99, "gov") == 57 {
 		addr = 0xfe
 	}
 	f.a.pushInt(addr)
-	g.pushMaxGas(f)
+	g.pushGas(f, false)
 	if op == 0xf1 {
 		g.o(f, op, 7, 1)
 	} else {
@@ -709,15 +721,16 @@ func (g *gen) precompileStmt(f *frame) {
 
 // initCode builds constructor code. Kinds: runtime | empty | revert | invalid | big | selfdestruct
 func (g *gen) initCode(parent *frame, noEmpty bool) []byte {
-	f := &frame{a: newAsm(), self: -1, entry: parent.entry, created: true, nest: parent.nest + 1, minT: parent.minT, inLoop: true}
+	f := &frame{a: newAsm(), self: -1, entry: parent.entry, created: true, nest: parent.nest + 1, minT: parent.minT, inLoop: true, level: parent.level + 1}
 	kind := g.i(0, 9, "ik")
 	// S15 open: a CREATE in a frame reached by a call must not deploy code
 	if !parent.entry && g.avoidS15 && (kind < 6 || kind == 9) {
 		g.excl[sigS15] = true
 		kind = 6 + g.i(0, 2, "ik2")
 	}
-	if kind == 6 && noEmpty {
-		// S16 (nonce 0) open: CREATE2 of empty code could be repeated at the same address
+	if (kind == 6 || kind == 8) && noEmpty {
+		// S16 (nonce 0) open: a CREATE2 that leaves an account without code could be repeated at
+		// the same address (collision check looks at nonce and code)
 		g.excl[sigS16Nonce] = true
 		kind = 7
 	}
@@ -730,7 +743,7 @@ func (g *gen) initCode(parent *frame, noEmpty bool) []byte {
 	}
 	switch {
 	case kind < 6:
-		rf := &frame{a: newAsm(), self: -1, entry: false, created: true, nest: parent.nest + 1, minT: parent.minT, inLoop: true}
+		rf := &frame{a: newAsm(), self: -1, entry: false, created: true, nest: parent.nest + 1, minT: parent.minT, inLoop: true, level: parent.level + 1}
 		g.block(rf, g.i(1, 3, "rb"), 1)
 		g.terminator(rf)
 		rt := rf.a.link()
@@ -780,7 +793,7 @@ func (g *gen) createStmt(f *frame) {
 		f.a.pushInt(uint64(g.i(0, 3, "salt")))
 	}
 	ln := uint64(len(init))
-	if g.i(0, 9, "clen") == 0 {
+	if g.i(0, 9, "clen") == 0 && !(c2 && g.avoidNonce) {
 		ln = uint64(g.i(0, len(init), "cl"))
 	}
 	f.a.pushInt(ln)
@@ -828,7 +841,7 @@ func (g *gen) createStmt(f *frame) {
 			f.a.pushInt(0)
 			g.o(f, 0x90, 0, 0)
 		}
-		g.pushMaxGas(f)
+		g.pushGas(f, false)
 		if op == 0xf1 || op == 0xf2 {
 			g.o(f, op, 7, 1)
 		} else {
@@ -885,9 +898,14 @@ func (g *gen) terminator(f *frame) {
 }
 
 func (g *gen) contractCode(idx int) []byte {
-	f := &frame{a: newAsm(), self: idx, entry: idx == 0, pure: g.pure[idx], minT: idx + 1}
+	f := &frame{a: newAsm(), self: idx, entry: idx == 0, pure: g.pure[idx], minT: idx + 1, level: idx}
 	n := g.i(1, 6, "nstmt")
-	g.block(f, n, 2)
+	pre := g.i(0, n, "callat")
+	g.block(f, pre, 2)
+	if idx < g.n-1 && g.i(0, 2, "forcecall") > 0 {
+		g.callStmt(f) // most contracts that can call forward do
+	}
+	g.block(f, n-pre, 2)
 	g.terminator(f)
 	return f.a.link()
 }
@@ -974,7 +992,7 @@ func genCase(leg string) func(t *rapid.T) EVMCase {
 			}
 			c.Accounts = append(c.Accounts, a)
 		}
-		sb := []*big.Int{new(big.Int).Exp(big.NewInt(10), big.NewInt(18), nil), pow2(130), big.NewInt(0)}[g.i(0, 9, "sbal")/4%3]
+		sb := []*big.Int{new(big.Int).Exp(big.NewInt(10), big.NewInt(18), nil), pow2(130), big.NewInt(0)}[[]int{0, 0, 0, 0, 0, 0, 0, 0, 1, 1, 1, 2}[g.i(0, 11, "sbal")]]
 		c.Accounts = append(c.Accounts, Acct{Addr: senderAddr, Balance: sb.Bytes(), Nonce: uint64(g.i(0, 2, "snonce"))})
 		c.Accounts = append(c.Accounts, Acct{Addr: eoaAddr, Balance: big.NewInt(1000).Bytes(), Nonce: 3})
 		if len(c.To) > 0 {
